@@ -208,6 +208,10 @@ Step(cfg, unreach, s) ==
          LET tk == BranchTaken(n.op, R(sL, n.rs1), R(sL, n.rs2)) IN
          done([sL EXCEPT !.pc = IF tk THEN Target(cfg, n.lab) ELSE NextPc(cfg, here)])
     [] k = "jump" -> done([sL EXCEPT !.pc = Target(cfg, n.lab)])
+    \* jal rd, L with rd other than zero / ra: a jump that leaves the address of the next instruction in rd
+    [] k = "linkjump" ->
+         IF Target(cfg, n.lab) = 0 THEN Halt(sL, "jump-to-undefined-label")
+         ELSE done(Define([sL EXCEPT !.reg = SetR(sL, n.rd, CodeAddr(here + 1)), !.pc = Target(cfg, n.lab)], {n.rd}))
     [] k = "call" ->
          LET tgt == Target(cfg, n.lab)
              regs2 == SetR(sL, 1, CodeAddr(here + 1))
